@@ -5,7 +5,7 @@ src, sid, prop = sys.argv[1:4]
 dst=f'/verif/seeded/{sid}'; os.makedirs(dst,exist_ok=True)
 for f in ['patch.diff','demo.rs','README.md']:
     shutil.copy(f'{src}/{f}',f'{dst}/{f}')
-r=subprocess.run(['/verif/tools/confirm_mutant.sh',src,'/tmp/seedchk'],capture_output=True,text=True)
+r=subprocess.run(['/verif/tools/confirm_mutant.sh',src,os.environ.get('CONFIRM_WT','/tmp/seedchk')],capture_output=True,text=True)
 conf=r.stdout.strip().splitlines()[-1] if r.stdout.strip() else 'NO OUTPUT'
 d=subprocess.run(['/verif/tools/try_mutant_scratch.sh',f'{dst}/patch.diff',prop,'quick'],capture_output=True,text=True)
 lines=[l.strip() for l in d.stdout.splitlines()]
@@ -15,7 +15,7 @@ head=subprocess.run(['git','-C','/repo','log','--oneline','-1'],capture_output=T
 readme=open(f'{dst}/README.md').read()
 m=re.search(r'(?is)(what is needed[^\n]*\n+|## trigger[^\n]*\n+|\*\*trigger[^\n]*|manifest[^\n]*\n+)(.{0,900})',readme)
 meta={'id':sid,'property':prop,
- 'origin':'second and later rounds: written by an independent sub-agent that saw only the property text and a scratch worktree of the repaired /repo (round 2: plus a hint which source area to look at; round 3: asked for two coinciding conditions; round 4: asked to evade a small-input randomized tester)',
+ 'origin':os.environ.get('ORIGIN') or 'second and later rounds: written by an independent sub-agent that saw only the property text and a scratch worktree of the repaired /repo (round 2: plus a hint which source area to look at; round 3: asked for two coinciding conditions; round 4: asked to evade a small-input randomized tester)',
  'applies_to_repo_head':head,
  'needs_to_manifest':(m.group(0).strip()[:900] if m else 'see README.md'),
  'confirmed':{'how':'tools/confirm_mutant.sh in a scratch worktree at /repo HEAD: patch applies, `cargo test --workspace --no-fail-fast --offline` passes with the patch, the demo fails with the patch and passes without it','result':conf},
